@@ -5,7 +5,7 @@ from vlib.core import Ctx, ddmin
 ID = "C02"
 MODULES = ["IoraModel.Props.C02"]
 LEANCHECK = ["IoraModel.Model.LifecycleCore", "IoraModel.Model.EngineLifecycle", "IoraModel.Model.CloseFanout", "IoraModel.Model.LifecycleSites",
-             "IoraModel.Lemmas.LifecycleCore", "IoraModel.Lemmas.LifecycleInv", "IoraModel.Lemmas.EngineLifecycle", "IoraModel.Lemmas.EngineSteps",
+             "IoraModel.Lemmas.LifecycleCore", "IoraModel.Lemmas.LifecycleInv", "IoraModel.Lemmas.EngineLifecycle", "IoraModel.Lemmas.EngineSteps", "IoraModel.Lemmas.EngineStale",
              "IoraModel.Lemmas.CloseFanout", "IoraModel.Props.C02"]
 OBLIGATIONS = [
     {"id": "C02_sites_tcp", "theorem": "Iora.C02.closeSites_covered_tcp", "kind": "proved",
@@ -38,6 +38,10 @@ OBLIGATIONS = [
      "statement": "for every observe/unobserve/setSessionData/close history the observer list is strictly increasing in id (= registration order, each once) and agrees with the index"},
     {"id": "C02_T6", "theorem": "Iora.C02.T6_gauge", "kind": "proved",
      "statement": "sessionsCurrent = number of non-closed table entries after every history; announced open sessions are counted; 0 after the drain"},
+    {"id": "C02_nostale", "theorem": "Iora.C02.no_dangling_session_access", "kind": "proved",
+     "statement": "no history makes a handler touch a session that has been erased from the table (the model's `stale` flag is never set)"},
+    {"id": "C02_restart_tie", "theorem": "Iora.C02.drainErasesTags", "kind": "proved",
+     "statement": "translator: the shutdown drain erases the fd tag of every session it frees (restart starts from empty maps; F35)"},
     {"id": "C02_udp_index", "theorem": "Iora.C02.udp_index_points_at_live_sessions", "kind": "proved",
      "statement": "the UDP peer index only points at live announced sessions of that peer (with or without the F17 repair)"},
 ]
@@ -470,7 +474,12 @@ def check_stepped(ctx, hb, res, dist):
                 if m:
                     final_known = [] if m.group(1) == "-" else [int(x) for x in m.group(1).split(",")]
                     final_cur = int(m.group(2).split(",")[3])
+                elif obs.startswith("counters"):
+                    # interposer fire / inject counts of the whole stepped run: `fn=fired/injected`
+                    ctx.extra["interposers_fired_injected"] = dict(t.split("=") for t in obs.split()[1:])
                 continue
+            kinds = ctx.extra.setdefault("model_op_kinds", {})
+            kinds[op.split()[0]] = kinds.get(op.split()[0], 0) + 1
             evs, cur = parse_obs(obs)
             if evs and cur is not None:
                 evs[-1] = evs[-1][:3] + (cur,)
@@ -639,7 +648,9 @@ def run(ctx: Ctx):
         certdir = os.path.join(ctx.repo, "tests", "tls-certs")
         if ctx.replay:
             r = json.load(open(ctx.replay))
-            cases = [{"cat": r.get("category", "tcp-stepped"), "ops": r["ops"], "id": "replay"}]
+            first = r["ops"][0].split()[0]
+            cat = {"tcp": "tcp-stepped", "udp": "udp-stepped", "fan": "fanout", "scn": "threaded"}.get(first, r.get("category", "tcp-stepped"))
+            cases = [{"cat": cat, "ops": r["ops"], "id": "replay"}]
             corpus = []
         else:
             corpus = load_corpus()
@@ -649,6 +660,8 @@ def run(ctx: Ctx):
             cases += [gen_tcp_script(r1, i) for i in range(130 * scale)]
             cases += [gen_udp_script(r2, i) for i in range(90 * scale)]
         stepped = [c for c in cases if c["cat"] in ("tcp-stepped", "udp-stepped")]
+        if not ctx.replay:
+            stepped.append({"cat": "tcp-stepped", "id": "counters", "ops": ["tcp reset", "tcp end", "counters"]})
         fan = [c for c in cases if c["cat"] == "fanout"]
         scns = [c for c in cases if c["cat"] == "threaded"]
         t = time.time()
@@ -680,12 +693,34 @@ def run(ctx: Ctx):
             t = time.time()
             run_scenarios(ctx, hb, rng.fork("scn"), 36 if quick else 900, dist)
             ctx.log("threaded scenarios done (%.1fs)" % (time.time() - t))
-        elif scns:
-            pass
-        out, rc, err = ctx.run_lines([hb], ["counters"], timeout=30)
+        # ---- thorough: the same threaded scenarios under ThreadSanitizer (a report that names engine / transport code is a finding)
+        if not quick and not ctx.replay:
+            tb = ctx.build_harness("harness/c02_life.cpp", name="c02_life_tsan", sanitize=False, flags=["-fsanitize=thread"])
+            if tb:
+                r5 = rng.fork("tsan")
+                ops = []
+                for i in range(120):
+                    ops.append("scn %s seed=%d n=%d batch=%d et=1 stopms=%d racers=%d idle=0 cto=200 mwq=%d inj=%d nested=%d" %
+                               ("udp" if i % 3 == 2 else "tcp", r5.below(1 << 30), r5.range(3, 10), r5.below(2), r5.choice([5, 15, 30]), r5.choice([1, 2, 3]),
+                                r5.choice([1, 2, 1024]), r5.choice([0, 4]), r5.below(2)))
+                out, rc, err = ctx.run_lines([tb], ops, timeout=1800, env={"C02_CERT_DIR": certdir, "TSAN_OPTIONS": "halt_on_error=0:exitcode=0:report_signal_unsafe=0"})
+                reports = [r for r in err.split("==================") if "WARNING: ThreadSanitizer" in r and re.search(r"tcp_engine\.hpp|udp_engine\.hpp|transport_impl\.hpp", r)]
+                ctx.extra["tsan_scenarios"] = len(out)
+                ctx.extra["tsan_reports"] = len(reports)
+                dist["threaded-tsan"] = len(out)
+                if reports:
+                    ctx.violation("property", "T0: ThreadSanitizer reports a data race in engine lifecycle code during a threaded scenario",
+                                  {"ops": ops[:len(out) + 1][-3:], "category": "threaded", "tsan": reports[0][:3000]}, found_input=True)
+                if len(out) < len(ops):
+                    from vlib.core import classify_crash
+                    ctx.violation("property", "T0: the engine crashed or hung under ThreadSanitizer (%s)" % classify_crash(rc, err),
+                                  {"ops": ops[len(out):len(out) + 1], "category": "threaded", "stderr": err[-2000:]}, found_input=True)
     ctx.extra["input_distribution"] = dist
     ctx.extra["repo_tree_sha"] = ctx.repo_tree_sha(ANCHOR_FILES)
-    ctx.extra["not_proved"] = []
+    ctx.extra["not_proved"] = [
+        "T3's `data only after announce` carries the environment hypothesis envBad=false (no payload from a socket whose connect has not completed): a kernel fact, not proved",
+        "the EventBatchProcessor path (loopBatched) is tied by its call skeleton and exercised by the threaded scenarios only (monitors), not by the stepped acceptor",
+    ]
     ctx.assumptions += [
         "callbacks are installed before the engine starts (Transport::Impl::setupEngineCallbacks always installs all five)",
         "no exception escapes a callback or a handler (TcpEngine::process catches and reports; a throwing callback can skip a close)",
